@@ -7,8 +7,12 @@ scheduler interleaves whole queries and partial chunk reads, so that decompresso
 seeks of one part land between reads of the other.  Storage defects (lost / duplicated parts)
 must be rejected with DebError.  Every run is repeated under other hash seeds.
 """
+import atexit
 import bz2
 import copy
+import os
+import shutil
+import tempfile
 import gzip
 import hashlib
 import io
@@ -45,10 +49,31 @@ ASSUMPTIONS = [
     "no byte corruption is injected: the property promises rejection only for structurally "
     "defective member sets",
 ]
-PROBES = ["parts_compressed_differently_read_alternately", "one_byte_chunks_while_control_requeried",
+PROBES = ["opened_by_filename", "payload_over_8k_read_in_chunks",
+          "parts_compressed_differently_read_alternately", "one_byte_chunks_while_control_requeried",
           "uncompressed_control_tar", "debian_binary_not_first", "defective_package_rejected",
           "two_streams_same_part_interleaved", "name_with_space", "nested_directory",
           "pax_format", "extra_ar_member", "long_name", "empty_data_tar"]
+
+_STATE = {}
+
+
+def _scratch():
+    pid = os.getpid()
+    if _STATE.get("pid") != pid:
+        base = os.environ.get("VERIF_SCRATCH")
+        if not base:
+            base = "/dev/shm" if os.access("/dev/shm", os.W_OK) else tempfile.gettempdir()
+        root = tempfile.mkdtemp(prefix="verif-c07-%d-" % pid, dir=base)
+        _STATE.update(pid=pid, root=root)
+        atexit.register(shutil.rmtree, root, True)
+        try:
+            from multiprocessing import util as _mpu
+            _mpu.Finalize(None, shutil.rmtree, args=(root, True), exitpriority=10)
+        except Exception:   # pylint: disable=broad-except
+            pass
+    return _STATE["root"]
+
 
 COMP = ["", "gz", "bz2", "xz", "lzma"]
 SCRIPTS = ["preinst", "postinst", "prerm", "postrm", "config"]
@@ -83,21 +108,26 @@ def generate(seed, run, tier):
     names = list(FNAMES)
     rw.shuffle(names)
     files = []
+    big = rs.random() < 0.12     # payloads beyond the decompressors' 8 KiB read chunk
     for n in names[:rs.choice([0, 1, 2, 3, 5, 8])]:
-        files.append({"name": n, "data": enc_bytes(_bytes(rw, rw.choice([0, 1, 7, 100, 600, 2000])))})
+        size = rw.choice([0, 1, 7, 100, 600, 2000])
+        if big and rw.random() < 0.5:
+            size = rw.choice([9000, 20000, 70000])
+        files.append({"name": n, "data": enc_bytes(_bytes(rw, size))})
     world = {"fields": fields, "scripts": scripts, "files": files,
              "tarfmt": rs.choice(["ustar", "gnu", "gnu", "pax"]),
              "ccomp": rs.choice(COMP), "dcomp": rs.choice(COMP),
              "order": rs.choice([[0, 1, 2], [0, 2, 1], [1, 0, 2], [2, 1, 0], [1, 2, 0]]),
              "extra": rs.choice([None, None, "_gpgorigin", "zz-extra"]),
-             "defect": rs.choice(DEFECTS), "md5": rs.random() < 0.9}
+             "defect": rs.choice(DEFECTS), "md5": rs.random() < 0.9,
+             "open": rs.choice(["fileobj", "fileobj", "fileobj", "filename"])}
     steps = []
     nfiles = max(len(files), 1)
     w = {"debcontrol": 2, "scripts": 1, "md5sums": 2, "has": 3, "content": 4, "names": 1,
          "open_stream": rs.choice([0, 2, 4]), "read_stream": rs.choice([0, 4, 10]),
          "missing": 1, "cget": 2}
     kinds = [k for k, v in w.items() for _ in range(v)]
-    chunk = rs.choice([1, 1, 3, 64, 500])
+    chunk = rs.choice([1, 1, 3, 64, 500, 5000])
     for _ in range(rs.choice([3, 10, 20, 40])):
         k = rq.choice(kinds)
         st = {"op": k}
@@ -244,7 +274,15 @@ def execute(case):
     world = case["world"]
     blob, model = build(world)
     shared = SimFile(blob)
-    r = _call(debfile.DebFile, fileobj=shared)
+    if world.get("open") == "filename":
+        path = os.path.join(_scratch(), "p.deb")
+        fd = os.open(path, os.O_WRONLY | os.O_CREAT | os.O_TRUNC, 0o644)
+        os.write(fd, blob)
+        os.close(fd)
+        r = _call(debfile.DebFile, filename=path)
+        out.probe("opened_by_filename")
+    else:
+        r = _call(debfile.DebFile, fileobj=shared)
     defect = world.get("defect")
     log.add("open", defect, r[0], r[1] if r[0] == "exc" else None)
     if defect:
@@ -396,6 +434,8 @@ def execute(case):
                                      "want": repr(want)[:200]})
                 s["pos"] += len(want)
                 s["reads"] += 1
+                if len(s["data"]) > 8192 and s["reads"] >= 2:
+                    out.probe("payload_over_8k_read_in_chunks")
                 if s["reads"] >= 2 and want:
                     multi_chunk = True
                 if n == 1 and inter and inter[-1][0] == "control" and part == "data":
